@@ -125,6 +125,8 @@ def no_silent_input(ctx, r: Rust, arms):
     n_reads = 0
     for op, aps in arms.items():
         for ap in aps:
+            if ap.end != 'next':
+                continue            # a path that rejects anyway cannot ignore input
             n_reads += sum(1 for s in _flat(ap.steps) if s[0] in ('byte', 'pop', 'claimpop', 'list', 'peek'))
             for s in _flat(ap.steps):
                 if (s[0] == 'byte' and not s[2]) or (s[0] == 'pop' and not s[3]) or (s[0] == 'claimpop' and not s[1]):
